@@ -19,11 +19,17 @@ int rc_drive(int tape_min, int tape_max, std::vector<uint8_t> &shrunk, std::stri
 	// own size parameter is not used to limit the length because an exhausted
 	// tape already means "defaults from here on".  Shrinking removes and
 	// zeroes bytes, which the decoders turn into structurally smaller cases.
-	auto elem = rc::gen::resize(1000, rc::gen::arbitrary<uint8_t>());
+	auto elem = rc::gen::resize(100, rc::gen::arbitrary<uint8_t>());
 	auto g = rc::gen::resize(tape_max,
 		rc::gen::container<std::vector<uint8_t>>(elem));
+	// Shrinking budget, counted in property executions (never wall clock):
+	// once it is used up every further shrink candidate is reported as
+	// passing, which ends rapidcheck's shrink loop at the best case so far.
+	long shrink_budget = env_long("VERIF_SHRINK_RUNS", 400);
+	long shrink_runs = 0;
 	bool ok = rc::check(target_name, [&]() {
 		std::vector<uint8_t> tape = *g;
+		if (failed_any && tape != last_fail && ++shrink_runs > shrink_budget) return;
 		std::string r = run_tape(tape.data(), tape.size());
 		if (!r.empty()) {
 			// the last failing execution is the shrunk minimum: rapidcheck
